@@ -62,6 +62,7 @@ fn main() {
                 "c01" => gen_tok::gen_c01(&mut out, seed, thorough),
                 "c02" => gen_tok::gen_c02(&mut out, seed, thorough),
                 "c03" => gen_tok::gen_c03(&mut out, seed, thorough),
+                "c15w" => gen_tok::gen_c15w(&mut out, seed, thorough),
                 "c04" => gen_paserk::gen_c04(&mut out, seed, thorough),
                 "c16" => gen_paserk::gen_c16(&mut out, seed, thorough, false),
                 "c16rng" => gen_paserk::gen_c16(&mut out, seed, thorough, true),
